@@ -48,6 +48,7 @@ type Witness struct {
 	Model   map[string]string
 	Reached []string
 	Notes   []string
+	Sched   []SchedStep
 }
 
 // Explorer runs jobs on a pool of workers, each with its own solver.
@@ -189,7 +190,7 @@ func (e *Explorer) Run(jobs []*Job) []*JobResult {
 							reached = append(reached, k)
 						}
 						sort.Strings(reached)
-						jr.Witnesses = append(jr.Witnesses, Witness{Model: res.Witness, Reached: reached, Notes: res.Notes})
+						jr.Witnesses = append(jr.Witnesses, Witness{Model: res.Witness, Reached: reached, Notes: res.Notes, Sched: res.Sched})
 					}
 					for _, f := range res.Forks {
 						stack = append(stack, workItem{it.job, f})
